@@ -43,6 +43,7 @@ func init() {
 // Event is one entry of the world's event log: a decorated store, device or plugin call
 type Event struct {
 	Seq      int64
+	AtMs     int64 // milliseconds since the world was created (debugging aid; no oracle reads it)
 	StartSeq int64 // writes: sequence number taken just before the real call started
 	Inc      int
 	Task     string
@@ -70,6 +71,7 @@ type World struct {
 	Registry pluginregistry.PluginRegistry
 	Devices  map[string]*Device
 
+	born   time.Time
 	mu     sync.Mutex
 	events []*Event
 	seq    int64
@@ -119,7 +121,7 @@ type Options struct {
 
 // New builds a world with the default synthetic schema and starts the first incarnation
 func New(opts Options) (*World, error) {
-	w := &World{Atomix: test.NewClient(), Topo: NewTopo(), Schema: refmodel.DefaultSchema(), Devices: map[string]*Device{},
+	w := &World{born: time.Now(), Atomix: test.NewClient(), Topo: NewTopo(), Schema: refmodel.DefaultSchema(), Devices: map[string]*Device{},
 		Crashed: make(chan struct{}, 16), connGen: map[string]int{}}
 	w.Plugin = &Plugin{Schema: w.Schema, w: w}
 	w.Registry = pluginregistry.NewPluginRegistry("fake-plugin-endpoint")
@@ -170,6 +172,7 @@ func (w *World) logEvent(e *Event) {
 }
 
 func (w *World) logEventSeq(e *Event) {
+	e.AtMs = time.Since(w.born).Milliseconds()
 	if e.Task == "" {
 		if t := currentTaskObj(); t != nil {
 			e.Task = t.Name()
@@ -206,6 +209,13 @@ func (w *World) Mark(kind string) int64 {
 	e := &Event{Kind: kind, OK: true}
 	w.logEvent(e)
 	return e.Seq
+}
+
+// InjectedFault records that the environment made a call fail with a transient injected error: that is an
+// environment action (the retry it provokes may sit in the controllers' maximum back-off), so it restarts the
+// stability window exactly like a connect or a disconnect does
+func (w *World) InjectedFault() {
+	atomic.StoreInt64(&w.lastChange, time.Now().UnixNano())
 }
 
 // Writes is the number of successful writes / device requests / environment actions so far
@@ -256,7 +266,11 @@ func (inc *Incarnation) fault(kind string) error {
 	if t == nil || t.Ctl == "handler" {
 		return nil
 	}
-	return f(kind)
+	err := f(kind)
+	if err != nil {
+		inc.w.InjectedFault()
+	}
+	return err
 }
 
 // Kill kills the current incarnation now
